@@ -14,7 +14,7 @@ inductive Loc | here | there
   deriving Repr, DecidableEq
 
 inductive Op
-  | tell | tellValue | ask | kill | poison | watch | unwatch | ping | pipeOk | pipeFail
+  | tell | tellValue | ask | kill | poison | watch | unwatch | watchTwin | unwatchTwin | ping | pipeOk | pipeFail
   deriving Repr, DecidableEq
 
 /-- Built-in messages the operation puts on the wire (in either direction) for a target at `t`
@@ -26,6 +26,10 @@ def wire (op : Op) (t f : Loc) : List String :=
   | .poison, .there, _ => ["OnKill"]
   | .watch, .there, _ => ["OnKilled", "WatchMessage"]
   | .unwatch, .there, _ => ["UnwatchMessage", "WatchMessage"]
+  -- a second watcher with the caller's very path lives on the other system: one of the two is remote
+  | .watchTwin, _, _ => ["OnKilled", "WatchMessage"]
+  | .unwatchTwin, .here, _ => ["OnKilled", "WatchMessage"]
+  | .unwatchTwin, .there, _ => ["UnwatchMessage"]
   | .ping, .there, _ => ["PingMessage", "PongMessage"]
   | .pipeOk, _, .there => ["PipeResult"]
   | .pipeFail, _, .there => ["PipeResult"]
@@ -53,6 +57,8 @@ def effect : Op → String
   | .poison => "target onkill killer=caller poison=true reason=why; target terminated"
   | .watch => "caller onkilled ref=target"
   | .unwatch => "-"
+  | .watchTwin => "caller onkilled ref=target; twin onkilled ref=target"
+  | .unwatchTwin => "twin onkilled ref=target"
   | .ping => "caller pong"
   | .pipeOk => "fwd piperesult msg=1009/re err=nil; target got 9/p from future"
   | .pipeFail => "fwd piperesult msg=nil err=error; target got 9/p from future"
